@@ -243,4 +243,73 @@ theorem inv_empty (w : World) : ArrayInv w .empty ∧ PixelInv w .empty := by
   · intro id e he; simp [Caches.empty] at he
   · intro id p hp; simp [Caches.empty] at hp
 
+/-! ## the hit test as a parameter -/
+
+theorem frbWith_matches (w : World) (c : Caches) (r : Req) :
+    frbWith ArrayEntry.matches w c r = frb w c r := rfl
+
+/-- On empty caches the hit test is never asked. -/
+theorem frbWith_empty (hit : ArrayEntry → Req → Bool) (w : World) (r : Req) :
+    frbWith hit w .empty r = frb w .empty r := by
+  simp only [frbWith, frb, arrayHitWith, arrayHit, Caches.empty]
+
+/-- The entry `ARRAY_CACHE[cache_id]` holds after request `r` returned `a`. -/
+def storedEntry (w : World) (r : Req) (a : Arr) : ArrayEntry :=
+  ⟨r.data, boundsForCache r.bounds (dimsAll w r), r.target, r.what, r.broadcast, a⟩
+
+/-- A request that returns an array from empty caches returns the uncached answer and leaves
+`storedEntry` in `ARRAY_CACHE[cache_id]`. -/
+theorem frb_empty_stores {w : World} (hw : w.wf) {r : Req} {id : Nat} {a : Arr}
+    (hcid : r.cacheId = some id) (h : frbUncached w r = .ok a) :
+    (frb w .empty r).1 = .ok a ∧ (frb w .empty r).2.array id = some (storedEntry w r a) := by
+  have hstep := (frb_step hw .empty (inv_empty w).1 (inv_empty w).2 r).1
+  refine ⟨by rw [hstep, h], ?_⟩
+  have hv : boundsValid r.bounds = true := by
+    cases hb : boundsValid r.bounds with
+    | true => rfl
+    | false => simp [frbUncached, hb] at h
+  have hpc0 : PcOk w r (pixelStart .empty id r) := by
+    intro p hp; simp [pixelStart, Caches.empty] at hp
+  have hloop := axesCached_sound hw r (List.range (w.ndim r.data)) _ hpc0
+  unfold frb
+  simp only [hv, Bool.not_true, Bool.false_eq_true, if_false, hcid]
+  have hmiss : arrayHit .empty id r = none := by simp [arrayHit, Caches.empty]
+  simp only [hmiss]
+  rcases hrec : axesCached w r (List.range (w.ndim r.data)) (pixelStart .empty id r) with ⟨res1, pc⟩
+  rw [hrec] at hloop
+  simp only at hloop
+  cases res1 with
+  | error e =>
+    exfalso
+    have : axesPlain w r (List.range (w.ndim r.data)) = .error e := hloop.1.symm
+    simp [frbUncached, hv, this] at h
+  | ok axes =>
+    have hplain : axesPlain w r (List.range (w.ndim r.data)) = .ok axes := hloop.1.symm
+    have hun : frbUncached w r = finish w r axes := by simp [frbUncached, hv, hplain]
+    have hfin : finish w r axes = .ok a := by rw [← hun, h]
+    have hdims : dimsAllOf axes = dimsAll w r := axesPlain_dims _ _ hplain
+    simp only [hfin, upd, if_true, storedEntry, hdims]
+
+/-- **The 2-request history.** If the hit test identifies the entry stored for `r₁` with a request
+`r₂` under the same cache id, the second answer is the first array. -/
+theorem runReqsWith_stale {w : World} (hw : w.wf) (hit : ArrayEntry → Req → Bool) {r₁ r₂ : Req} {id : Nat}
+    {a₁ : Arr} (hc₁ : r₁.cacheId = some id) (hc₂ : r₂.cacheId = some id)
+    (h₁ : frbUncached w r₁ = .ok a₁) (hv₂ : boundsValid r₂.bounds = true)
+    (hhit : hit (storedEntry w r₁ a₁) r₂ = true) :
+    runReqsWith hit w .empty [r₁, r₂] = [.ok a₁, .ok a₁] := by
+  obtain ⟨hans, hst⟩ := frb_empty_stores hw hc₁ h₁
+  simp only [runReqsWith, frbWith_empty, hans]
+  congr 1
+  congr 1
+  simp only [frbWith, hv₂, Bool.not_true, Bool.false_eq_true, if_false, hc₂, arrayHitWith, hst, hhit, if_true]
+  rfl
+
+/-- The history runner with the coded hit test is `runOps` on request-only histories. -/
+theorem runReqsWith_matches (w : World) : ∀ (rs : List Req) (c : Caches),
+    runReqsWith ArrayEntry.matches w c rs = runOps true w c (rs.map Op.req)
+  | [], _ => rfl
+  | r :: rs, c => by
+    simp only [runReqsWith, List.map_cons, runOps, if_true, frbWith_matches]
+    rw [runReqsWith_matches w rs]
+
 end GlueVerif.Lemmas.C16
